@@ -1,7 +1,7 @@
 (* C06 — unknown keys are never silently ignored; required keys are enforced.
    Property theorems only; each is closed by `exact` of a lemma proved in Proofs/C06Proofs.v.
 
-   `run fuel p cfg` (Model/C06Validate.v) is the model of the parse methods of jsonargparse on a configuration tree:
+   `run md fuel p cfg` (Model/C06Validate.v) is the model of the parse methods of jsonargparse on a configuration tree:
    the lenient _apply_actions pre-pass, subcommand selection (get_subcommands / handle_subcommands), validate's
    check_values (keys deepest first, branch-key escape, the three NSKeyError variants) and check_required with the
    recursion into the selected subcommand, and the nested per-class parsers for List[dataclass] items and for the
@@ -10,8 +10,12 @@
    configuration, at every nesting level, that the declaration tree does not define, and the required keys of the closure
    (incl. the required subcommand and the required parameters of the selected class) that are absent or null.
 
+   `md` is how the configuration was handed over: MDefaults (any channel, defaults=True), MNoDefObj / MNoDefStr
+   (parse_object / parse_string with defaults=False: no subcommand section is created by merging defaults, and only then does
+   "Remove extra subcommand settings" depend on how many sections were given).  Every theorem is for ALL modes.
+
    FULL STATEMENT (false of the unchanged code, see the three `_refuted` theorems):
-     forall fuel p cfg, run fuel p cfg = Ok -> undeclared p cfg = []. *)
+     forall md fuel p cfg, run md fuel p cfg = Ok -> undeclared md p cfg = []. *)
 From JV Require Import Lib.Base Model.C06Validate Spec.C06Spec Proofs.C06Proofs.
 
 (* What holds without any guard, for ALL parsers, ALL configuration trees, any fuel: an accepted configuration has no
@@ -20,13 +24,13 @@ From JV Require Import Lib.Base Model.C06Validate Spec.C06Spec Proofs.C06Proofs.
    out when its flags are set: (sl) a key whose value is a mapping without any leaf, (sd) a key in the section of a
    subcommand that is not in force, (sc) a key beside class_path in a class value without init_args. *)
 Theorem C06_accepted_has_no_undeclared_key :
-  forall fuel p cfg, run fuel p cfg = Ok -> und_top true true true p cfg = [].
+  forall md fuel p cfg, run md fuel p cfg = Ok -> und_top md true true true p cfg = [].
 Proof. exact accept_no_undeclared. Qed.
 Print Assumptions C06_accepted_has_no_undeclared_key.
 
 (* The guarded statement.  guard_class is the very function the judge evaluates for v_class. *)
 Theorem C06_accepted_only_if_all_keys_declared :
-  forall fuel p cfg, guard_class p cfg = 0%N -> run fuel p cfg = Ok -> undeclared p cfg = [].
+  forall md fuel p cfg, guard_class md p cfg = 0%N -> run md fuel p cfg = Ok -> undeclared md p cfg = [].
 Proof. exact accept_no_undeclared_guarded. Qed.
 Print Assumptions C06_accepted_only_if_all_keys_declared.
 
@@ -34,13 +38,13 @@ Print Assumptions C06_accepted_only_if_all_keys_declared.
    the subcommand in force, the required fields of every list item, the required parameters of the selected class
    (recursively), and a required subcommand itself — is present with a non-null value. *)
 Theorem C06_accepted_only_if_required_present :
-  forall fuel p cfg, wf_parser p = true -> run fuel p cfg = Ok -> missing_required p cfg = [].
+  forall md fuel p cfg, wf_parser p = true -> run md fuel p cfg = Ok -> missing_required md p cfg = [].
 Proof. exact accept_required. Qed.
 Print Assumptions C06_accepted_only_if_required_present.
 
 Theorem C06_required_subcommand_selected :
-  forall fuel p sb l, wf_parser p = true -> p_sub p = Some sb -> s_req sb = true -> run fuel p (CDict l) = Ok ->
-    exists s sa, spec_selected sb l = Some s /\ assoc s (s_map sb) = Some sa.
+  forall md fuel p sb l, wf_parser p = true -> p_sub p = Some sb -> s_req sb = true -> run md fuel p (CDict l) = Ok ->
+    exists s sa, spec_selected md sb l = Some s /\ assoc s (s_map sb) = Some sa.
 Proof. exact accept_required_subcommand. Qed.
 Print Assumptions C06_required_subcommand_selected.
 
@@ -48,48 +52,54 @@ Print Assumptions C06_required_subcommand_selected.
    only when the configuration does contain a key the parser does not define.  That the key NAMED by the error is such a key
    is not proved (false for the class-3 finding); it is checked case by case by the correspondence. *)
 Theorem C06_unknown_key_error_only_if_undeclared :
-  forall fuel p cfg ctx fam key,
-    wf_parser p = true -> run fuel p cfg = Err (EUnknown ctx fam key) -> undeclared p cfg <> [].
+  forall md fuel p cfg ctx fam key,
+    wf_parser p = true -> run md fuel p cfg = Err (EUnknown ctx fam key) -> undeclared md p cfg <> [].
 Proof. exact unknown_error_only_if_undeclared. Qed.
 Print Assumptions C06_unknown_key_error_only_if_undeclared.
 
 (* Both halves in the form the correspondence judge uses (spec_ok is what it evaluates on every observed parse). *)
 Theorem C06_accept_sound :
-  forall fuel p cfg, wf_parser p = true -> guard_class p cfg = 0%N -> run fuel p cfg = Ok -> spec_ok p cfg Accepted = true.
+  forall md fuel p cfg, wf_parser p = true -> guard_class md p cfg = 0%N -> run md fuel p cfg = Ok -> spec_ok md p cfg Accepted = true.
 Proof. exact accept_sound. Qed.
 Print Assumptions C06_accept_sound.
 
 (* The hypotheses are satisfiable by a non-trivial input (dotted group, nested dataclasses, a class with a
    List[dataclass] parameter, a list argument, a required subcommand), and the error branches are inhabited. *)
 Example C06_example_accept :
-  wf_parser ex_p = true /\ guard_class ex_p ex_c = 0%N /\ run 24 ex_p ex_c = Ok /\
-  undeclared ex_p ex_c = [] /\ missing_required ex_p ex_c = [].
+  wf_parser ex_p = true /\ guard_class MDefaults ex_p ex_c = 0%N /\ run MDefaults 24 ex_p ex_c = Ok /\
+  undeclared MDefaults ex_p ex_c = [] /\ missing_required MDefaults ex_p ex_c = [].
 Proof. exact example_accept. Qed.
 
 Example C06_example_reject_unknown :
-  exists ctx, run 24 ex_p ex_c_bad = Err (EUnknown ctx FKey [s_zz]) /\ In (ctx ++ [K s_zz]) (undeclared ex_p ex_c_bad).
+  exists ctx, run MDefaults 24 ex_p ex_c_bad = Err (EUnknown ctx FKey [s_zz]) /\ In (ctx ++ [K s_zz]) (undeclared MDefaults ex_p ex_c_bad).
 Proof. exact example_reject_unknown. Qed.
 
 Example C06_example_reject_missing :
-  exists ks, run 24 ex_p ex_c_miss = Err (EMissing [] ks) /\ missing_required ex_p ex_c_miss = map (map K) ks.
+  exists ks, run MDefaults 24 ex_p ex_c_miss = Err (EMissing [] ks) /\ missing_required MDefaults ex_p ex_c_miss = map (map K) ks.
 Proof. exact example_reject_missing. Qed.
+
+(* a subcommand that is named but whose section is missing is rejected in every mode: without merged defaults only the
+   recursion of check_required into the selected subcommand sees it *)
+Example C06_example_named_without_section :
+  forall md, exists ks, run md 24 ex_p ex_c_nosec = Err (EMissing [] ks) /\ missing_required md ex_p ex_c_nosec = map (map K) ks.
+Proof. exact example_named_without_section. Qed.
 
 (* ---------- the findings: the full statement is false of the unchanged code ---------- *)
 (* parser with one optional argument y; the configuration {zz: {}} is accepted although zz is not declared *)
 Theorem C06_empty_mapping_refuted :
-  exists fuel p cfg, run fuel p cfg = Ok /\ undeclared p cfg <> [] /\ guard_class p cfg = 1%N.
+  exists md fuel p cfg, run md fuel p cfg = Ok /\ undeclared md p cfg <> [] /\ guard_class md p cfg = 1%N.
 Proof. exact empty_mapping_refuted_ex. Qed.
 Print Assumptions C06_empty_mapping_refuted.
 
 (* subcommands fit / test; {subcommand: fit, fit: {u: 1}, test: {zz: 7}} is accepted although test.zz is not declared *)
 Theorem C06_discarded_section_refuted :
-  exists fuel p cfg, run fuel p cfg = Ok /\ undeclared p cfg <> [] /\ guard_class p cfg = 2%N.
+  exists md fuel p cfg, run md fuel p cfg = Ok /\ undeclared md p cfg <> [] /\ guard_class md p cfg = 2%N.
 Proof. exact discarded_section_refuted_ex. Qed.
 Print Assumptions C06_discarded_section_refuted.
 
 (* class-typed argument w; {w: {class_path: C1, zz: 7}} is rejected, but the error names class_path, not zz *)
 Theorem C06_class_path_misnamed_refuted :
-  exists fuel p cfg ctx fam key,
-    run fuel p cfg = Err (EUnknown ctx fam key) /\ spec_ok p cfg (RejUnknown key) = false /\ guard_class p cfg = 3%N.
+  exists md fuel p cfg ctx fam key,
+    run md fuel p cfg = Err (EUnknown ctx fam key) /\ spec_ok md p cfg (RejUnknown key) = false /\ guard_class md p cfg = 3%N.
 Proof. exact class_path_misnamed_refuted_ex. Qed.
 Print Assumptions C06_class_path_misnamed_refuted.
